@@ -4,6 +4,7 @@ package vh
 
 import (
 	"bufio"
+	"bytes"
 	"crypto/sha1"
 	"encoding/json"
 	"fmt"
@@ -215,6 +216,8 @@ func (r *Report) AddDiff(d Diff) {
 func (r *Report) Finish() {
 	r.WallS = time.Since(r.start).Seconds()
 	b, _ := json.Marshal(r)
+	// one line for every reader: encoding/json leaves U+0085 (NEL) raw, and some line splitters break there
+	b = bytes.ReplaceAll(b, []byte("\u0085"), []byte("\\u0085"))
 	fmt.Println("REPORT " + string(b))
 }
 
